@@ -196,7 +196,7 @@ pub fn run(ctx: &mut Ctx) {
     ctx.rule = "proptest scenarios: one Put between two real daemons; segment size in {16,24,32,64,1024}, file size in {0,1,seg-1,seg,seg+1,2seg,3seg-1,3seg+1,4seg,5seg+3,8seg,12seg}, \
 content in {random, zero, zero runs aligned to segments, checksum-neutral word pairs, zero tail}, both modes, closure, Modular/Null checksum, CRC, 6 NAK procedures (independent \
 for the receiver), limits 1..4, timeouts 1..5 s, id widths 1/2/4/8, serialisation delay 0/1/10 ms, latency 0..5 ms, 0..5 faults over the first 30 datagrams of either direction \
-(drop, duplicate, delay, single-bit corruption only with the CRC on), tokio scheduler seed. Non-trivial = a fault hit a datagram and the file has >= 2 segments, or the content/checksum \
+(drop, duplicate, delay, single-bit corruption only with the CRC on), tokio scheduler seed; two exhaustive families: one lost datagram at every position under weak checksums, and - without CRC, modular checksum - one flipped bit in the file data of each segment. Non-trivial = a fault hit a datagram and the file has >= 2 segments, or the content/checksum \
 is weak (null checksum, neutral, zero runs, zero tail) and some data byte never reached the receiver; distinct by the whole scenario."
         .into();
     ctx.assumptions = vec![
@@ -235,6 +235,30 @@ is weak (null checksum, neutral, zero runs, zero tail) and some data byte never 
         }
     }
     ctx.section = "one-loss-weak-checksum".into();
+    ctx.drive_list(&part, cases, true);
+    // no CRC on the link, modular file checksum: one bit of one data segment's file data arrives flipped (every segment,
+    // several bit positions) - only the file checksum can notice, and nobody may then report a complete delivery
+    let mut cases = vec![];
+    for class in [ContentClass::Random, ContentClass::Zero, ContentClass::Neutral] {
+        for unack in [true, false] {
+            for closure in [false, true] {
+                for nsegs in [1u32, 2, 4] {
+                    for hit in 1..=nsegs {
+                        for frac in [0u16, 9000, 33000, 65535] {
+                            let cfg = CfgSpec { seg: 16, null_checksum: false, crc: false, closure, ..CfgSpec::default() };
+                            let mut sc = Scenario::two_entities(cfg.clone(), cfg.clone());
+                            sc.seed = ctx.seed ^ frac as u64;
+                            sc.puts.push(simple_put(16 * nsegs - (frac as u32 % 3), class.clone(), 91 + hit as u64, unack));
+                            sc.faults.push(Fault { from: 0, to: 1, ordinal: hit, kind: FaultKind::CorruptData { frac } });
+                            sc.horizon_ms = generous_horizon(&[&cfg]);
+                            cases.push(C01Case { sc });
+                        }
+                    }
+                }
+            }
+        }
+    }
+    ctx.section = "one-flipped-data-bit-no-crc".into();
     ctx.drive_list(&part, cases, true);
     ctx.section.clear();
 }
